@@ -102,6 +102,12 @@ CHECKS["C03"] = dict(
     text="Every built-in set accepted by validation, ids 0..20 in random subsets of 1-3 (and ids beyond quadtree level 32), polygons at random places including the origin corner and near the far corner. Four TLC passes: all sets within deviation + document-inconsistency term; the four sets with exact documents strictly within the deviation; the three sets of known finding F8 are confirmed to exceed only by the document-inconsistency term; deep ids fall under known finding F9. A wrong level offset, factor 16 or origin corner is off by a large fraction of a pixel and fails every pass.",
     note="Trusted: TLC; math/big computation of index/offset/ulp from the document text; DeviationStats as the source of the reported deviation (as the property names it).")
 
+CHECKS["C16"] = dict(
+    category="model_checking", design_ref="DESIGN.md §7 C16",
+    technique="TLA+ mutation machine over abstract documents (TmsJson.tla) enumerated by TLC to depth 1-2 with the class the property assigns (must-reject / must-not-panic); every abstract document applied to all 14 built-in JSON documents and the real decoder/encoder outcome judged by TmsJsonTrace.tla",
+    text="152 one-deep and 11 040 two-deep mutated documents x 14 built-in documents: outcome error/ok/panic, round-trip equality and byte-stable second encoding for accepted documents, semantic equality of the re-encoded built-ins with their source. This is the weakest fit of the technique (DESIGN §9): the specification contributes the enumeration and the verdict table, JSON value equality is a harness fact.",
+    note="Trusted: TLC; the harness's application of abstract mutations to concrete JSON; encoding/json for JSON equality.")
+
 NOT_YET = {}
 
 ALL = ["C%02d" % i for i in range(1, 19)]
